@@ -26,6 +26,8 @@ EXCEPTIONS: Dict[Tuple[str, str], str] = {
         "yields symbols in set order; every consumer is commutative (split_block's label loop, any(...) tests, mi.consume)",
     ("_modify.cache.ReferenceCache._make_direct_refs", "tuple(node.children)"):
         "worklist order over tree children only changes the traversal order of the same flattening",
+    ("_modify.cache.ReferenceCache._has_indirect_references", "node.children"):
+        "worklist of a pure search whose only result is a boolean (is there any symbol in the trees): traversal order cannot show",
     ("prepare.prepare_for_rewriting", "tuple(module.byte_intervals)"):
         "partitions are appended in set order but each partition is joined independently; the list order never reaches the output",
     ("_modify.cache.ReferenceCache.get_references", "block.references"):
@@ -255,6 +257,10 @@ def c11_1(ctx: Ctx):
                     ctx.fail(fi, n, f"{fn}(`{src(a0)[:50]}`)", "materialises an unordered collection as a sequence that is used as such", key=f"{q}::{fn}::{src(a0)[:60]}")
             if isinstance(n, ast.Call) and isinstance(n.func, ast.Attribute) and n.func.attr == "extend" and n.args and _is_unordered(fi, _strip_wrappers(n.args[0])):
                 n_sites += 1
+                exc = EXCEPTIONS.get((q, src(n.args[0])))
+                if exc:
+                    ctx.ok(fi, n, f"{src(n.func.value)}.extend(`{src(n.args[0])[:40]}`): exception", exc, key=f"{q}::extend::{src(n.args[0])[:60]}", nontrivial=False)
+                    continue
                 ctx.fail(fi, n, f"{src(n.func.value)}.extend(`{src(n.args[0])[:40]}`)", "extends a list with an unordered collection", key=f"{q}::extend::{src(n.args[0])[:60]}")
     if n_sites < 50:
         raise AnalysisError(f"only {n_sites} unordered-iteration sites recognised (expected about 80): the source classifier went blind")
